@@ -423,6 +423,16 @@ func checkC20(c *Ctx) {
 		}
 		rest := la[len(prefix):]
 		wantPk := args
+		if bc.cmd == "run" && len(args) > 0 {
+			// `go run` takes one package (or leading .go files); the rest are program arguments.
+			n := 1
+			if strings.HasSuffix(args[0], ".go") {
+				for n < len(args) && strings.HasSuffix(args[n], ".go") {
+					n++
+				}
+			}
+			wantPk = args[:n]
+		}
 		if len(wantPk) == 0 {
 			wantPk = []string{"."}
 		}
